@@ -59,6 +59,7 @@ def build(tier, seed):
             cases.append({'fam': 'long', 'seed': sd, 'n': n, 'levels': [3, 5, 9][j % 3], 'stick': [30, 60, 85][(j // 4) % 3]})
         bounds['long seeded plateau-rich words'] = 'lengths 50..5000, seeds 64*VERIF_SEED..+63 (reported separately, not exhaustive)'
     return {
+        'rule_more': 'peak indices after the other public functions of the module were called on the same array (record rebased to start at 0); cycle counter on large levels with tiny steps',
         'cases': cases,
         'rule': 'prefix tree of all words over the alphabet up to the length bound (pool case = sub-tree rooted at a word of '
                 'length <= %d); every non-constant node x ptype {all,max,min} x input container {float64,int64,list} x '
